@@ -56,7 +56,7 @@ func timedRoutes(scen string) []byte {
 	if scen == "slowhandler" {
 		routes = []map[string]any{{
 			"match":  []map[string]any{{"verif_m0": map[string]any{"at": 4, "v": "Y", "w": "Y"}}},
-			"handle": []map[string]any{{"handler": "verif_h", "k": "mark", "l": 1, "r": 1}, {"handler": "verif_h", "k": "eatrec", "n": 8}},
+			"handle": []map[string]any{{"handler": "verif_h", "k": "mark", "l": 1, "r": 1}, {"handler": "verif_h", "k": "eatrec", "n": 12}},
 		}}
 	} else {
 		// a route that stays undecided whatever arrives (until the buffer is full)
@@ -109,9 +109,9 @@ func runTimed(sc timedScen, idx int) (*timedTrace, error) {
 		slack = 250
 	}
 	tr := &timedTrace{ID: fmt.Sprintf("timed:%s:%s:T%d:p%d", sc.Transport, sc.Scen, sc.T, sc.Phase), Transport: sc.Transport, Scen: sc.Scen,
-		T: sc.T, Phase: sc.Phase, Eps: 2, Slack: slack, Limit: 8192, Chunk: 2048, Want: 8, NeedClosed: sc.Transport == "tcp"}
+		T: sc.T, Phase: sc.Phase, Eps: 2, Slack: slack, Limit: 8192, Chunk: 2048, Want: 12, NeedClosed: sc.Transport == "tcp"}
 	T := time.Duration(sc.T) * time.Millisecond
-	horizon := 2*T + time.Duration(slack)*time.Millisecond + 1500*time.Millisecond
+	horizon := 3*T + time.Duration(slack)*time.Millisecond + 1500*time.Millisecond
 
 	// the client's sending schedule, common to both transports
 	client := func(write func([]byte) error, stop <-chan struct{}) {
@@ -153,6 +153,13 @@ func runTimed(sc timedScen, idx int) (*timedTrace, error) {
 			case <-time.After(2 * T):
 			}
 			write(s[4:8])
+			// a further read is ENTERED after the old matching deadline has passed
+			select {
+			case <-stop:
+				return
+			case <-time.After(T/4 + 5*time.Millisecond):
+			}
+			write(s[8:12])
 		}
 	}
 	stop := make(chan struct{})
